@@ -47,11 +47,24 @@ def main():
             fv = dict(repo_head=head, at=time.strftime("%Y-%m-%d %H:%M"))
             sh("git -C %s checkout -q -- . && git -C %s clean -fdq" % (WT, WT))
             ap = sh("git -C %s apply --check %s/patch.diff" % (WT, d))
+            patch = os.path.join(d, "patch.diff")
+            if ap.returncode != 0:
+                # later repository fixes touch neighbouring lines: try a 3-way merge and keep the re-based patch beside the original
+                ap3 = sh("git -C %s apply --3way %s/patch.diff" % (WT, d))
+                if ap3.returncode == 0:
+                    sh("git -C %s reset -q" % WT)
+                    open(os.path.join(d, "patch.rebased.diff"), "w").write(sh("git -C %s diff" % WT).stdout)
+                    patch = os.path.join(d, "patch.rebased.diff")
+                    fv["rebased_3way"] = True
+                    ap = ap3
+                sh("git -C %s reset -q --hard && git -C %s clean -fdq" % (WT, WT))
+            elif os.path.exists(os.path.join(d, "patch.rebased.diff")):
+                pass
             fv["patch_applies"] = ap.returncode == 0
             if ap.returncode == 0:
                 env = dict(os.environ, PYTHONPATH=WT, PYTHONDONTWRITEBYTECODE="1")
                 base = subprocess.run([PY, os.path.join(d, "demo.py")], cwd=WT, env=env, capture_output=True, text=True, timeout=300)
-                sh("git -C %s apply %s/patch.diff" % (WT, d))
+                sh("git -C %s apply %s" % (WT, patch))
                 t = subprocess.run([PY, "-m", "pytest", "-q", "-p", "no:cacheprovider", "dfols/tests"], cwd=WT, env=env, capture_output=True, text=True, timeout=900)
                 fv["repo_tests_with_patch"] = (t.stdout.strip().splitlines() or ["?"])[-1]
                 mut = subprocess.run([PY, os.path.join(d, "demo.py")], cwd=WT, env=env, capture_output=True, text=True, timeout=300)
